@@ -154,6 +154,8 @@ class Plan:
              "writer_pref=%d" % (1 if getattr(self, "writer_pref", False) else 0)]
         if self.now is not None:
             L.append("now=%d.%09d" % (self.now[0], self.now[1]))
+        if getattr(self, "stdin_delay", None):
+            L.append("stdin_delay=%d" % self.stdin_delay)       # seconds the path list on stdin takes to arrive (rt/src/clock.rs)
         if self.choices is not None:
             L.append("choices=%s" % ",".join(str(c) for c in self.choices))
         if self.picks is not None:
